@@ -1364,23 +1364,23 @@ def eval_ext(case):
 
 
 FAMILIES = [
-    Family("column", eval_column, strategy=strat_column, n_quick=450, n_thorough=5000, shards_quick=4,
+    Family("column", eval_column, strategy=strat_column, n_quick=900, n_thorough=5000, shards_quick=4,
            shards_thorough=16, setup=_setup,
            required_labels=["has-null", "null-fails", "idx=dup", "n=set", "ignore_na=False", "ref=fail", "empty"]),
-    Family("frame", eval_frame, strategy=strat_frame, n_quick=300, n_thorough=3000, shards_quick=3,
+    Family("frame", eval_frame, strategy=strat_frame, n_quick=600, n_thorough=3000, shards_quick=3,
            shards_thorough=16, setup=_setup,
            required_labels=["frame:partial-null-row", "frame:form=ew", "frame:pred=cell_gt", "frame:pred=all_gt",
                             "frame:behind-known(no null or ignore_na=False)", "frame:ref=fail"]),
-    Family("groupby", eval_groupby, strategy=strat_groupby, n_quick=300, n_thorough=3000, shards_quick=3,
+    Family("groupby", eval_groupby, strategy=strat_groupby, n_quick=600, n_thorough=3000, shards_quick=3,
            shards_thorough=16, setup=_setup,
            required_labels=["gb:how=call", "gb:how=call_derived", "gb:groups=subset", "gb:has-null", "gb:level=frame",
                             "gb:empty-group(unobserved category)", "gb:behind-known", "gb:cols=g+h"]),
-    Family("alias", eval_alias, strategy=strat_alias, n_quick=250, n_thorough=2500, shards_quick=2,
+    Family("alias", eval_alias, strategy=strat_alias, n_quick=500, n_thorough=2500, shards_quick=2,
            shards_thorough=8, setup=_setup,
            required_labels=["alias=" + a_ for a_ in sorted(M.ALIASES)] + ["alias:has-null", "alias:on-bound"]),
-    Family("nullable_ext", eval_ext, strategy=strat_ext, n_quick=300, n_thorough=3000, shards_quick=2, shards_thorough=8,
+    Family("nullable_ext", eval_ext, strategy=strat_ext, n_quick=600, n_thorough=3000, shards_quick=2, shards_thorough=8,
            setup=_setup, required_labels=["ext:has-null", "ext:ref=fail", "ext:form=ew", "ext:dtype=Int64", "ext:dtype=boolean"]),
-    Family("polars", eval_polars, strategy=strat_polars, n_quick=120, n_thorough=1200, shards_quick=3,
+    Family("polars", eval_polars, strategy=strat_polars, n_quick=240, n_thorough=1200, shards_quick=3,
            shards_thorough=16, setup=_setup_polars,
            required_labels=["pl:has-null", "pl:behind-known", "pl:ignore_na=False", "pl:ref=fail", "pl:lf"]),
 ]
